@@ -21,7 +21,14 @@ const LEVELS: [PageTableLevel; 4] = [
     PageTableLevel::Four,
 ];
 
+/// every accessor answers for every canonical address: a panic is a finding, not a harness error
 fn forward(rep: &mut Report, x: u64, cls: &str) {
+    if let Err(m) = crate::util::catch_msg(std::panic::AssertUnwindSafe(|| forward_inner(&mut *rep, x, cls))) {
+        rep.violation(&format!("index-accessor|panicked|{}", crate::gen::half(x)), J::obj(vec![("addr", J::hex(x)), ("panic", J::s(m))]));
+    }
+}
+
+fn forward_inner(rep: &mut Report, x: u64, cls: &str) {
     rep.eval();
     let v = VirtAddr::new(x);
     let exp = [idx(x, 1), idx(x, 2), idx(x, 3), idx(x, 4)];
@@ -258,7 +265,15 @@ fn index_ctors(rep: &mut Report) {
     rep.exhaustive.push("all u16 for PageTableIndex::{new,new_truncate}, PageOffset::{new,new_truncate}".into());
 }
 
+/// every function of this property answers for every input of its domain: a panic anywhere in the sweep is a finding
+/// (it ends the sweep of this shard)
 pub fn run(a: &Args, rep: &mut Report) {
+    if let Err(m) = crate::util::catch_msg(std::panic::AssertUnwindSafe(|| run_inner(a, &mut *rep))) {
+        rep.violation("index-or-page-function|panicked-on-an-input-of-its-domain", J::obj(vec![("panic", J::s(m)), ("profile", J::s(crate::util::profile_name()))]));
+    }
+}
+
+fn run_inner(a: &Args, rep: &mut Report) {
     let mut r = Rng::derive(a.seed, "c04", a.shard);
     if a.shard == 0 {
         level_helpers(rep);
